@@ -176,6 +176,11 @@ def snub_cube():
     return out
 
 
+def rhombic_dodecahedron():
+    return [[x, y, z] for x in (-1.0, 1.0) for y in (-1.0, 1.0) for z in (-1.0, 1.0)] + \
+        [[2.0, 0, 0], [-2.0, 0, 0], [0, 2.0, 0], [0, -2.0, 0], [0, 0, 2.0], [0, 0, -2.0]]
+
+
 def prism(n, h=1.0):
     ring = _regular_polygon(n)
     return [[x, y, -h / 2] for x, y in ring] + [[x, y, h / 2] for x, y in ring]
@@ -240,6 +245,8 @@ CONVEX3D = {
     "pyramid": lambda rng: pyramid(rng.randint(3, 7), rng.uniform(0.6, 2.0)),
     "bipyramid": lambda rng: bipyramid(rng.randint(3, 6), rng.uniform(0.6, 2.0)),
     "ellipsoid_pts": lambda rng: ellipsoid_points(rng, rng.randint(4, 16)),
+    # a dual (Catalan) solid: has an insphere, no circumsphere
+    "rhombic_dodecahedron": lambda rng: rhombic_dodecahedron(),
 }
 
 
